@@ -49,6 +49,10 @@ type Script struct {
 	// ListErrAt > 0: the backend's repository listing ends at item ListErrAt-1 by yielding that name
 	// together with an error (a Seq may deliver an item along with its error)
 	ListErrAt int `json:"list_err_at,omitempty"`
+	// Inner != "": the registry that is wrapped is itself a wrapper (access | select) around the backend,
+	// with a policy of its own that allows everything (InnerRejects false) or rejects everything
+	Inner        string `json:"inner,omitempty"`
+	InnerRejects bool   `json:"inner_rejects,omitempty"`
 }
 
 type policyErr struct{ n int }
@@ -77,8 +81,24 @@ func run(s Script, v *vt.V) {
 	var policyCalls []string
 	var reg ociregistry.Interface
 	var backend ociregistry.Interface = r.Registry()
-	if s.Method == "Repositories" && s.ListErrAt > 0 && s.ListErrAt <= len(s.Listed) {
+	if s.Method == "Repositories" && s.ListErrAt > 0 && s.ListErrAt <= len(s.Listed) && s.Inner == "" {
 		backend = &listFault{Interface: backend, names: s.Listed, at: s.ListErrAt - 1}
+	}
+	innerPolicyCalls := 0
+	switch s.Inner {
+	case "access":
+		backend = ocifilter.AccessChecker(backend, func(name string, k ocifilter.AccessKind) error {
+			innerPolicyCalls++
+			if s.InnerRejects {
+				return errInner
+			}
+			return nil
+		})
+	case "select":
+		backend = ocifilter.Select(backend, func(name string) bool {
+			innerPolicyCalls++
+			return !s.InnerRejects
+		})
 	}
 	switch s.Wrapper {
 	case "access":
@@ -241,6 +261,23 @@ func run(s Script, v *vt.V) {
 	}
 	calls := r.Calls()
 	v.Class("%s/%s/rejected=%v", s.Wrapper, s.Method, rejected)
+	if s.Inner != "" {
+		v.Class("stacked/%s-over-%s/outer-rejects=%v/inner-rejects=%v", s.Wrapper, s.Inner, rejected, s.InnerRejects)
+		if rejected && innerPolicyCalls > 0 {
+			v.Failf("rejected-reached-wrapped", "%s over %s: the outer policy rejects %s(repo=%q from=%q) but the wrapped registry (a wrapper with its own policy) was invoked: its policy was asked %d times", s.Wrapper, s.Inner, s.Method, s.Repo, s.From, innerPolicyCalls)
+			return
+		}
+		if !rejected && s.InnerRejects {
+			// the outer wrapper lets the call through to a wrapped registry that refuses it
+			if len(calls) != 0 && s.Method != "Repositories" { // (a selecting wrapper lists by filtering the backend's listing)
+				v.Failf("rejected-reached-backend", "%s over %s: the inner policy rejects everything but the backend was invoked: %v", s.Wrapper, s.Inner, calls)
+			}
+			if len(gotList)+len(gotDescs) > 0 || gotReader != nil || gotWriter != nil {
+				v.Failf("rejected-leaks", "%s over %s: the inner policy rejects everything but data came back", s.Wrapper, s.Inner)
+			}
+			return
+		}
+	}
 	if rejected {
 		v.NonTrivial(fmt.Sprintf("%s|%s|%v|%v|%q|%q|%q|%d", s.Wrapper, s.Method, s.Policy, s.Default, s.Repo, s.From, s.ID, s.Offset))
 	}
@@ -364,6 +401,8 @@ func run(s Script, v *vt.V) {
 	_ = io.EOF
 }
 
+var errInner = errors.New("the inner wrapper's policy says no")
+
 var errListing = errors.New("the backend's listing broke off")
 
 // listFault makes the backend's repository listing end with (names[at], error).
@@ -423,6 +462,10 @@ func genScript(t *rapid.T) Script {
 	case "Repositories", "Tags":
 		s.Start = rapid.SampledFrom([]string{"", "a", "b", "zz"}).Draw(t, "start")
 	}
+	if rapid.IntRange(0, 3).Draw(t, "stacked") == 0 {
+		s.Inner = rapid.SampledFrom([]string{"access", "select"}).Draw(t, "inner")
+		s.InnerRejects = rapid.Bool().Draw(t, "innerRejects")
+	}
 	if s.Method == "Repositories" {
 		s.Listed = rapid.SliceOfNDistinct(rapid.SampledFrom([]string{"a", "a/b", "b", "c", "d", "e/f", "*"}), 0, 6, func(x string) string { return x }).Draw(t, "listed")
 		sort.Strings(s.Listed)
@@ -436,7 +479,7 @@ func genScript(t *rapid.T) Script {
 var prop = &vt.Prop[Script]{
 	ID:   "C12",
 	Name: "FilterWrappersRandomPolicies",
-	Rule: "wrapper in {AccessChecker, Select}; policy = random table (repository name, access kind) -> allow | one of three distinct errors, with a default row (pure function; Select's depends on the name only); method = each of the 18 Interface methods with repositories from {a, b, a/b, c, the empty name, '../a'} (the policy is asked about whatever name the caller passes; mount: source and target, incl. the same repository), resume ids {empty, opaque, shaped like the upload location of each repository} x offsets {-1,0,1,100}, listing start points, backend repository listings incl. a repository named '*'; recording backend that accepts everything; oracle = policy rejects => zero backend calls, the policy's own error (Select: name-unknown for read/list/delete, denied for write), no data; policy allows => exactly one backend call with the caller's context and arguments, the backend's own reader/writer/results (writers are used: Write+Commit must land in the backend's session); repository listings = backend's list filtered by the read verdict; a backend listing that breaks off by yielding a name together with an error reaches the consumer as an error without any hidden name; non-trivial = some involved repository is rejected, or a listing is filtered; distinct = (wrapper, method, policy, arguments)",
+	Rule: "wrapper in {AccessChecker, Select}; policy = random table (repository name, access kind) -> allow | one of three distinct errors, with a default row (pure function; Select's depends on the name only); method = each of the 18 Interface methods with repositories from {a, b, a/b, c, the empty name, '../a'} (the policy is asked about whatever name the caller passes; mount: source and target, incl. the same repository), resume ids {empty, opaque, shaped like the upload location of each repository} x offsets {-1,0,1,100}, listing start points, backend repository listings incl. a repository named '*'; recording backend that accepts everything; a quarter of the wrappers are laid over a registry that is itself an AccessChecker/Select wrapper with a counting policy of its own (allow-all or reject-all): that wrapper is the wrapped registry, so a call the outer policy rejects does not reach its policy either and fails with the outer policy's error; oracle = policy rejects => zero backend calls, the policy's own error (Select: name-unknown for read/list/delete, denied for write), no data; policy allows => exactly one backend call with the caller's context and arguments, the backend's own reader/writer/results (writers are used: Write+Commit must land in the backend's session); repository listings = backend's list filtered by the read verdict; a backend listing that breaks off by yielding a name together with an error reaches the consumer as an error without any hidden name; non-trivial = some involved repository is rejected, or a listing is filtered; distinct = (wrapper, method, policy, arguments)",
 	Gen:  genScript,
 	Run:  run,
 }
